@@ -740,7 +740,7 @@ class VarsManager(object):
                     self.variables[name_r[:-1] + "i"].assign_add(np.pi)
             else:
                 p.assign_add(np.pi)
-        self._std_polar_angle(p)
+        p.assign(self._std_polar_angle(p))
 
     def std_polar_all(self):  # std polar expression: r>0, -pi<p<pi
         """
